@@ -54,7 +54,8 @@ def sami_find_lang(c):
 # ------------------------------------------------------------------------------------ bounded
 
 def gen_set(rng, nlangs):
-    langs = rng.sample(["en-US", "fr-FR", "de-DE", "es-ES"], nlangs)
+    # (codes that are prefixes of one another: selecting 'en' must not select 'en-GB')
+    langs = rng.sample(["en-US", "fr-FR", "de-DE", "es-ES", "en", "en-GB"], nlangs)
     mode = rng.choice(["interleaved", "coinciding", "disjoint", "second_earlier", "empty_first"])
     caps = {}
     for li, l in enumerate(langs):
@@ -105,8 +106,15 @@ def bounded(ctx, b):
             first_seen = []
             for s, l in sorted((c_[0], l) for l in langs for c_ in want[l][:1]):
                 pass
-            return ({l: [t for _, t in texts_of(back)[l]] for l in bl} == {l: [t for _, t in want[l]] for l in langs if want[l]}), \
-                {"read_back": texts_of(back), "expected": want}
+            if {l: [t for _, t in texts_of(back)[l]] for l in bl} != {l: [t for _, t in want[l]] for l in langs if want[l]}:
+                return False, {"read_back": texts_of(back), "expected": want}
+            # every cue but the last of its language keeps its end (a blank sync of that language, or the next cue)
+            for l in bl:
+                orig, got_ = cs.get_captions(l), back.get_captions(l)
+                ends = [(o.end // 1000 * 1000, g_.end) for o, g_ in zip(orig[:-1], got_[:-1])]
+                if any(a != b_ for a, b_ in ends):
+                    return False, {"language": l, "ends_read_back": [g_.end for g_ in got_], "expected_ends": [o.end for o in orig], "doc": doc[-900:]}
+            return True, None
         b.guard(("sami", i), sami_out, sample={"format": "sami", "languages": langs, "cues": want})
 
         def dfxp_out(cs=cs, langs=langs, want=want):
